@@ -18,29 +18,26 @@
   What is proved (all for arbitrary field values inside the stated ranges):
     §1 Header                                   header_roundtrip
     §2 the 30 match payload kinds, uniformly     payload_roundtrip (+ payload_dispatch: the dispatcher runs the kind's decoder)
-    §3 MatchField (value, optional mask)         matchField_roundtrip_partial     — classes OPENFLOW_BASIC and NXM_1;
-                                                 matchField_registry_covered: instances exist for all 36 + 55 decodable fields
+    §3 MatchField (value, optional mask)         matchField_roundtrip — classes OPENFLOW_BASIC, NXM_1, EXPERIMENTER (all three);
+                                                 matchField_registry_covered: instances exist for all 36 + 55 + 2 decodable fields
        Match (field list + padding)              match_roundtrip                  — every field decoded from inside the list
     §4 actions through DecodeAction              actionOutput/Group/Setqueue/Push/PopVlan/PopMpls/DecNwTtl/Header/SetField,
-                                                 Nicira: nxConjunction / nxResubmitTable (2 subtypes) / nxDecTTL
+                                                 Nicira: nxConjunction / nxResubmit / nxResubmitTable (2 subtypes) / nxDecTTL
        instructions through DecodeInstr          instrGotoTable / instrWriteMetadata / instrActions (any list of actions)
     §5 messages through Parse                    parse_header_only (6 header-only types); switchConfig_roundtrip (2 types);
                                                  flowMod_roundtrip (Match + instructions + actions nested); flowRemoved_roundtrip;
-                                                 hello_one_element_roundtrip_partial, hello_default_roundtrip
+                                                 helloElem_roundtrip, hello_roundtrip (any number of elements), hello_default_roundtrip
 
   Where the round trip is FALSE in the model (= the Go code violates C05), the concrete counterexample is proved:
-    matchField_experimenter_counterexample   experimenter-class OXM: Len() counts 4 id bytes MarshalBinary never writes; the
-                                             decoder reads the value bytes as the id and returns an error       (known D14)
     actionMplsTtl_counterexample / actionNwTtl_counterexample / instrMeter_counterexample
-                                             TTL / MeterId neither written nor read; InstrMeter followed by anything decodes
-                                             to the all-zero instruction                                         (known D42)
-    nxResubmit_tableid_counterexample        NXActionResubmit.MarshalBinary stores TableID=255 in the receiver, not in the
-                                             buffer; decoded TableID is 0                                          (new)
-    hello_two_elements_counterexample        HelloElemVersionBitmap.UnmarshalBinary reads bitmaps to the end of the buffer, not
-                                             to its own Length: a Hello with two elements decodes to ONE element holding the
-                                             second element's bytes as bitmaps                                   (D20, not fixed)
-    helloElem_swallows_what_follows          the same in general: element ++ any words decodes to an element holding them all
-    helloElem_followed_counterexample        … and a concrete instance
+                                             TTL / MeterId neither written nor read (stub types without encoders of their own);
+                                             InstrMeter followed by anything decodes to the all-zero instruction  (known D42)
+    hello_unpadded_element_counterexample    a hello element whose Length is not a multiple of 8 followed by another element:
+                                             the encoder does not pad, the decoder advances by the rounded Length — the
+                                             following element is lost without an error (condition `PadOK` of hello_roundtrip)
+  Fixed since the first version of this file, the counterexamples replaced by positive theorems: experimenter-class OXM
+  (D14: matchField_roundtrip now covers it), NXActionResubmit.TableID (nxResubmit_roundtrip), hello bitmap decoder reading
+  to the end of the buffer (D20: helloElem_roundtrip, hello_roundtrip, hello_two_elements_roundtrip).
   Representation change (not a defect): ipv4_short_form — a 4-byte net.IP comes back in the 16-byte form of the same address.
 -/
 import OFV.Model.All
@@ -167,28 +164,29 @@ theorem ipv4_short_form (a b c d : UInt8) (data : Slice) (tail : Bytes) (hb : da
 /-! ## §3 MatchField and Match -/
 
 /-- MatchField, decoded by `MatchField.UnmarshalBinary` (which dispatches through `DecodeMatchField`) into `new(MatchField)`.
-    `MatchFieldWF` (OFV/Lemmas/RTMatch.lean): Class < 2^16, Field < 2^7, Length < 2^8, ExperimenterID = 0, the (class, field)
-    is one `DecodeMatchField` allocates a receiver `r` for in class OPENFLOW_BASIC or NXM_1 (`fieldRecv`), Value is a
-    well-formed payload of r's kind, HasMask ∈ {0,1}, Mask is nil without mask and a well-formed payload of r's kind with.
-    PARTIAL: the experimenter class is excluded — see `matchField_experimenter_counterexample`.
-    Full statement (false): the same for every class DecodeMatchField handles, including OXM_CLASS_EXPERIMENTER. -/
-theorem matchField_roundtrip_partial (v : V) (hwf : MatchFieldWF v) :
+    `MatchFieldWF` (OFV/Lemmas/RTMatch.lean): Class < 2^16, Field < 2^7, Length < 2^8; ExperimenterID is the ONF id
+    (0x4f4e4600) in class OXM_CLASS_EXPERIMENTER and 0 in every other class; the (class, field) is one `DecodeMatchField`
+    allocates a receiver `r` for (`fieldRecv`: classes OPENFLOW_BASIC, NXM_1, EXPERIMENTER — every class it handles);
+    Value is a well-formed payload of r's kind, HasMask ∈ {0,1}, Mask is nil without mask and a well-formed payload of
+    r's kind with.  Experimenter-class fields carry the 4 id bytes between the OXM header and the value. -/
+theorem matchField_roundtrip (v : V) (hwf : MatchFieldWF v) :
     ∃ bs, RoundTrip MatchField.marshalM (MatchField.unmarshal MatchField.zero) v v bs ∧
-      MatchField.lenM v = .ok (UInt16.ofNat bs.length, v) ∧ 4 ≤ bs.length ∧ bs.length ≤ 514 := by
-  obtain ⟨bs, h1, h2, h3, h4, h5⟩ := matchField_roundtrip v hwf
+      MatchField.lenM v = .ok (UInt16.ofNat bs.length, v) ∧ 4 ≤ bs.length ∧ bs.length ≤ 518 := by
+  obtain ⟨bs, h1, h2, h3, h4, h5⟩ := RT.matchField_roundtrip v hwf
   exact ⟨bs, ⟨h1, h1, h5⟩, h2, h3, h4⟩
 
 /-- the theorem is not vacuous anywhere in the registry: for EVERY (class, field) for which `DecodeMatchField` allocates a
-    receiver in classes OPENFLOW_BASIC / NXM_1 (whatever Length byte and mask flag), a well-formed value of the receiver's
+    receiver in classes OPENFLOW_BASIC / NXM_1 / EXPERIMENTER (whatever Length byte and mask flag), a well-formed value of the receiver's
     kind exists, i.e. `MatchFieldWF` has instances for that field -/
 theorem matchField_registry_covered (c f ln : Nat) (hm : Bool) (r : V) (h : fieldRecv c f ln hm = some r) :
     ∃ val, PayloadWF val ∧ RecvOK val r :=
   fieldRecv_supported c f ln hm r h
 
-/-- the fields concerned: 36 of the 42 OPENFLOW_BASIC entries and 55 of the 67 NXM_1 entries have a decoder
-    (the others are `case` labels without a body: DecodeMatchField returns an error, resp. panics, for them) -/
+/-- the fields concerned: 36 of the 42 OPENFLOW_BASIC entries, 55 of the 67 NXM_1 entries and both EXPERIMENTER entries have
+    a decoder (the others are `case` labels without a body: DecodeMatchField returns an error, resp. panics, for them) -/
 example : (basicFieldTable.filter (fun x => x.2.isSome)).length = 36 ∧
-    ((nxm1FieldTable 0 false).filter (fun x => x.2.isSome)).length = 55 := ⟨rfl, rfl⟩
+    ((nxm1FieldTable 0 false).filter (fun x => x.2.isSome)).length = 55 ∧
+    (experimenterFieldTable.filter (fun x => x.2.isSome)).length = 2 := ⟨rfl, rfl, rfl⟩
 
 /-- satisfiable: NewInPortField(7) -/
 example : MatchFieldWF (.obj "MatchField" [.num 32768, .num 0, .num 0, .num 4, .num 0, .obj "InPortField" [.num 7], .nil]) :=
@@ -207,14 +205,17 @@ example : MatchFieldWF (.obj "MatchField" [.num 1, .num 40, .num 1, .num 8, .num
     ⟨rfl, fun _ => ⟨_, _, _, rfl, rfl⟩, by simp [V.kind]⟩,
     Or.inr ⟨rfl, ⟨_, _, rfl, by decide, rfl⟩, rfl, fun _ => ⟨_, _, _, rfl, rfl⟩, by simp [V.kind]⟩⟩
 
-/-- COUNTEREXAMPLE (defect D14).  An experimenter-class OXM field (class 0xffff, field 42 = tcp_flags, ONF experimenter id
-    0x4f4e4600, value 0x01ff): `Len()` counts 4 bytes for the id, `MarshalBinary` never writes it (the value follows the
-    4-byte OXM header directly and 4 zero bytes trail), so `UnmarshalBinary` reads the value bytes as the experimenter
-    id and fails — whatever follows. -/
-theorem matchField_experimenter_counterexample (tail : Bytes) :
-    let v := V.obj "MatchField" [.num 65535, .num 42, .num 0, .num 2, .num 1330529792, .obj "TcpFlagsField" [.num 511], .nil]
-    MatchField.marshalM v = .ok ([255, 255, 84, 2, 1, 255, 0, 0, 0, 0], v) ∧
-    MatchField.unmarshal MatchField.zero (Slice.exact ([255, 255, 84, 2, 1, 255, 0, 0, 0, 0] ++ tail)) = .err :=
+/-- satisfiable in the experimenter class (D14, fixed): tcp_flags 0x01ff with the ONF experimenter id -/
+example : MatchFieldWF (.obj "MatchField" [.num 65535, .num 42, .num 0, .num 6, .num 1330529792,
+    .obj "TcpFlagsField" [.num 511], .nil]) :=
+  ⟨by decide, by decide, by decide, rfl, ⟨511, rfl, by decide⟩, TcpFlagsField.zero, rfl,
+    ⟨rfl, by simp [V.kind], by simp [V.kind]⟩, Or.inl ⟨rfl, rfl⟩⟩
+
+/-- … and the bytes of that field: OXM header, experimenter id, value; decoding them followed by anything gives it back -/
+theorem matchField_experimenter_example (tail : Bytes) :
+    let v := V.obj "MatchField" [.num 65535, .num 42, .num 0, .num 6, .num 1330529792, .obj "TcpFlagsField" [.num 511], .nil]
+    MatchField.marshalM v = .ok ([255, 255, 84, 6, 79, 78, 70, 0, 1, 255], v) ∧
+    MatchField.unmarshal MatchField.zero (Slice.exact ([255, 255, 84, 6, 79, 78, 70, 0, 1, 255] ++ tail)) = .ok v :=
   ⟨rfl, rfl⟩
 
 /-- Match, decoded into `new(Match)`: `MatchWF` = Type < 2^16, every field `MatchFieldWF`, Length = 4 + Σ field sizes
@@ -389,20 +390,16 @@ theorem nxDecTTL_roundtrip (c k : Nat) (hc : c < 65536) :
   obtain ⟨h1, _, h3⟩ := nxDecTTL_rt c hc
   exact ⟨h1, h1, fun data tail hd hb => h3 data tail k hd hb⟩
 
-/-- COUNTEREXAMPLE (new).  `NXActionResubmit.MarshalBinary` executes `a.TableID = OFPTT_ALL` — it stores 255 in the
-    RECEIVER and leaves the table byte of the buffer 0 — and `UnmarshalBinary` never assigns TableID.  So the value the
-    encoder leaves behind has TableID 255, and decoding its encoding yields TableID 0: an exported field differs after a
-    round trip (for every in_port and whatever follows).  The bytes themselves are reproduced. -/
-theorem nxResubmit_tableid_counterexample (ip t k : Nat) (hip : ip < 65536) :
-    let v := V.obj "NXActionResubmit" [nxHdr 16 Gen.openflow13.NXAST_RESUBMIT, .num ip, .num t, .bytes (zeros 3)]
-    let v1 := V.obj "NXActionResubmit" [nxHdr 16 Gen.openflow13.NXAST_RESUBMIT, .num ip, .num 255, .bytes (zeros 3)]
-    let v' := V.obj "NXActionResubmit" [nxHdr 16 Gen.openflow13.NXAST_RESUBMIT, .num ip, .num 0, .bytes (zeros 3)]
-    let bs := nxHdrBytes 16 Gen.openflow13.NXAST_RESUBMIT ++ be16 (n16 ip) ++ zeros 4
-    Action.marshalM v = .ok (bs, v1) ∧ Action.marshalM v' = .ok (bs, v1) ∧
-    ∀ (data : Slice) (tail : Bytes), data.WF → data.bytes = bs ++ tail → DecodeAction (k + 1) data = .ok v' := by
-  obtain ⟨h1, h3⟩ := nxResubmit_decode ip t hip
-  obtain ⟨h1', _⟩ := nxResubmit_decode ip 0 hip
-  exact ⟨h1, h1', fun data tail hd hb => h3 data tail k hd hb⟩
+/-- NXActionResubmit (fixed): TableID is OFPTT_ALL (255) in the value NewNXActionResubmit builds, `MarshalBinary` keeps 255
+    in the receiver and `UnmarshalBinary` sets 255: full round trip with value equality.  (For a hand-built value with
+    another TableID `t` the encoder overwrites it: `marshalM (v t) = (bs, v 255)` — second statement.) -/
+theorem nxResubmit_roundtrip (ip k : Nat) (hip : ip < 65536) :
+    let v := V.obj "NXActionResubmit" [nxHdr 16 Gen.openflow13.NXAST_RESUBMIT, .num ip, .num Gen.openflow13.OFPTT_ALL, .bytes (zeros 3)]
+    RoundTrip Action.marshalM (DecodeAction (k + 1)) v v (nxHdrBytes 16 Gen.openflow13.NXAST_RESUBMIT ++ be16 (n16 ip) ++ zeros 4) ∧
+    ∀ t, Action.marshalM (.obj "NXActionResubmit" [nxHdr 16 Gen.openflow13.NXAST_RESUBMIT, .num ip, .num t, .bytes (zeros 3)])
+      = .ok (nxHdrBytes 16 Gen.openflow13.NXAST_RESUBMIT ++ be16 (n16 ip) ++ zeros 4, v) := by
+  obtain ⟨h1, _, h3⟩ := nxResubmit_rt ip Gen.openflow13.OFPTT_ALL hip
+  exact ⟨⟨h1, h1, fun data tail hd hb => h3 data tail k hd hb⟩, fun t => (nxResubmit_rt ip t hip).1⟩
 
 /-- InstrGotoTable through DecodeInstr; pad (nil or zero bytes; NewInstrGotoTable: 3) comes back nil -/
 theorem instrGotoTable_roundtrip (ln tid kp : Nat) (hln : ln < 65536) (htid : tid < 256) :
@@ -535,32 +532,37 @@ theorem switchConfig_roundtrip (ver ty xid fl ms : Nat) (hver : ver < 256)
       parse depth data = .ok (switchConfigV ver ty 12 xid fl ms) :=
   switchConfig_rt ver ty xid fl ms hver hty hxid hfl hms
 
-/-- Hello with exactly ONE version-bitmap element (any bitmaps `ws`, any element Length field `l`) through Parse, the
-    buffer holding exactly the message (`data.bytes = bs`: nothing after it).  `MarshalBinary` stores the size in
-    Header.Length.  PARTIAL: more than one element, or anything behind the message, is excluded — see
-    `helloElem_swallows_what_follows` and `hello_two_elements_counterexample`. -/
-theorem hello_one_element_roundtrip_partial (ver xid l : Nat) (ws : List Nat) (hver : ver < 256) (hxid : xid < 4294967296)
-    (hl : l < 65536) (hws : ∀ w ∈ ws, w < 4294967296) (hk : 12 + 4 * ws.length < 65536) :
-    let bs := [n8 ver, n8 0] ++ be16 (n16 (12 + 4 * ws.length)) ++ be32 (n32 xid) ++ (be16 (n16 1) ++ be16 (n16 l) ++ wordsBytes ws)
-    (∀ ln0, Hello.marshalM (helloV ver ln0 xid l ws) = .ok (bs, helloV ver (12 + 4 * ws.length) xid l ws)) ∧
-    ∀ (depth : Nat) (data : Slice), data.WF → data.bytes = bs →
-      parse depth data = .ok (helloV ver (12 + 4 * ws.length) xid l ws) :=
-  hello_one_rt ver xid l ws hver hxid hl hws hk
+/-- One hello element, followed by anything (the next element, …): `HelloElemVersionBitmap.UnmarshalBinary` reads the bitmaps
+    up to the element's own Length (D20 bitmap part, fixed).  Element = type 1, Length = 4 + 4·#bitmaps (`helloElemV ws`),
+    bitmaps below 2^32. -/
+theorem helloElem_roundtrip (recv : V) (ws : List Nat) (hws : ∀ w ∈ ws, w < 4294967296) (hk : 4 + 4 * ws.length < 65536) :
+    RoundTrip HelloElemVersionBitmap.marshalM (HelloElemVersionBitmap.unmarshal recv) (helloElemV ws) (helloElemV ws)
+      (helloElemBytes ws) := by
+  have he := (helloElem_encode 1 (4 + 4 * ws.length) ws hk).1
+  exact ⟨he, he, fun data tail hd hb =>
+    helloElem_decode recv data hd 1 (by decide) ws hws hk tail (by rw [hb]; rfl)⟩
 
-/-- THE DEFECT IN GENERAL (D20, bitmap part).  `HelloElemVersionBitmap.UnmarshalBinary` run on the encoding of an element
-    with bitmaps `ws` followed by ANY further 32-bit words `more` (e.g. the next hello element) returns an element whose
-    bitmaps are `ws ++ more`: it reads to the end of the buffer, not to its own Length.  Only `more = []` round-trips. -/
-theorem helloElem_swallows_what_follows (recv : V) (l : Nat) (ws more : List Nat) (hl : l < 65536)
-    (hws : ∀ w ∈ ws, w < 4294967296) (hmore : ∀ w ∈ more, w < 4294967296) (hk : 4 + 4 * ws.length < 65536)
-    (data : Slice) (hd : data.WF)
-    (hb : data.bytes = (be16 (n16 1) ++ be16 (n16 l) ++ wordsBytes ws) ++ wordsBytes more) :
-    HelloElemVersionBitmap.marshalM (helloElemV l ws) = .ok (be16 (n16 1) ++ be16 (n16 l) ++ wordsBytes ws, helloElemV l ws) ∧
-    HelloElemVersionBitmap.unmarshal recv data = .ok (helloElemV l (ws ++ more)) := by
-  refine ⟨(helloElem_encode 1 l ws hk).1, ?_⟩
-  have := helloElem_decode recv data hd 1 l (by decide) hl (ws ++ more)
-    (fun w hw => by rcases List.mem_append.mp hw with h | h; exact hws w h; exact hmore w h)
-    (by rw [hb]; simp [wordsBytes, List.append_assoc])
-  simpa [helloElemV] using this
+/-- Hello with ANY number of version-bitmap elements through Parse, the buffer holding exactly the message
+    (`data.bytes = bs`; Hello.UnmarshalBinary walks to the end of the buffer, not to Header.Length).
+    Exact condition: every element is `helloElemV ws` (type 1, Length = 4 + 4·#bitmaps, bitmaps < 2^32: `ElemsOK`), and every
+    element EXCEPT THE LAST has a Length that is a multiple of 8, i.e. an odd number of bitmaps (`PadOK`) — the encoder
+    does not pad elements, the decoder advances by the Length rounded up to 8; total size below 2^16.
+    `MarshalBinary` stores the size in Header.Length (whatever `ln0` was there); Parse returns the value with that Length,
+    which encodes to the same bytes. -/
+theorem hello_roundtrip (ver xid : Nat) (wss : List (List Nat)) (hver : ver < 256) (hxid : xid < 4294967296)
+    (hok : ElemsOK wss) (hpad : PadOK wss) (hk : 8 + (helloBody wss).length < 65536) :
+    let bs := [n8 ver, n8 0] ++ be16 (n16 (8 + (helloBody wss).length)) ++ be32 (n32 xid) ++ helloBody wss
+    (∀ ln0, Hello.marshalM (helloV ver ln0 xid wss) = .ok (bs, helloV ver (8 + (helloBody wss).length) xid wss)) ∧
+    ∀ (depth : Nat) (data : Slice), data.WF → data.bytes = bs →
+      parse depth data = .ok (helloV ver (8 + (helloBody wss).length) xid wss) :=
+  hello_rt ver xid wss hver hxid hok hpad hk
+
+/-- satisfiable with three elements: 1 bitmap (Length 8), 3 bitmaps (Length 16), and a last one with 2 bitmaps (Length 12) -/
+example : ElemsOK [[18], [1, 2, 3], [4, 5]] ∧ PadOK [[18], [1, 2, 3], [4, 5]] := by
+  refine ⟨?_, ⟨rfl, rfl, trivial⟩⟩
+  intro ws hws
+  simp only [List.mem_cons, List.not_mem_nil, or_false] at hws
+  rcases hws with rfl | rfl | rfl <;> exact ⟨by decide, by decide⟩
 
 /-- NewHello(4) (one version-bitmap element), xid 7: MarshalBinary sets Header.Length = 16; Parse of the 16 bytes gives the
     marshalled value back and it encodes to the same bytes. -/
@@ -569,26 +571,27 @@ theorem hello_default_roundtrip :
       parse (bs.length + 1) (Slice.exact bs) = .ok v' ∧ Hello.marshalM v' = .ok (bs, v') :=
   ⟨_, _, rfl, rfl, rfl, rfl⟩
 
-/-- COUNTEREXAMPLE (defect D20, bitmap part — not fixed).  `HelloElemVersionBitmap.UnmarshalBinary(data)` reads bitmaps
-    `for read < len(data)`, i.e. to the end of the buffer instead of to its own Length, and `Hello.UnmarshalBinary` hands it
-    `data[next:]`.  A Hello with two version-bitmap elements therefore decodes (through Parse) to a Hello with ONE element
-    whose bitmaps are 0x12, then the second element's header 0x00010008 read as a bitmap, then 1. -/
-theorem hello_two_elements_counterexample :
+/-- the former counterexample (two elements of Length 8) now round-trips -/
+theorem hello_two_elements_roundtrip :
     let e1 := V.obj "HelloElemVersionBitmap" [.obj "HelloElemHeader" [.num 1, .num 8], .list [.num 18]]
     let e2 := V.obj "HelloElemVersionBitmap" [.obj "HelloElemHeader" [.num 1, .num 8], .list [.num 1]]
     let v := V.obj "Hello" [.obj "Header" [.num 4, .num 0, .num 24, .num 7], .list [e1, e2]]
     let bs : Bytes := [4, 0, 0, 24, 0, 0, 0, 7,  0, 1, 0, 8, 0, 0, 0, 18,  0, 1, 0, 8, 0, 0, 0, 1]
-    Hello.marshalM v = .ok (bs, v) ∧
-    parse 25 (Slice.exact bs) = .ok (.obj "Hello" [.obj "Header" [.num 4, .num 0, .num 24, .num 7], .list [
-      .obj "HelloElemVersionBitmap" [.obj "HelloElemHeader" [.num 1, .num 8], .list [.num 18, .num 65544, .num 1]]]]) :=
+    Hello.marshalM v = .ok (bs, v) ∧ parse 25 (Slice.exact bs) = .ok v :=
   ⟨rfl, rfl⟩
 
-/-- the same defect on the element decoder itself: an element followed by another element swallows it -/
-theorem helloElem_followed_counterexample :
-    let e := V.obj "HelloElemVersionBitmap" [.obj "HelloElemHeader" [.num 1, .num 8], .list [.num 18]]
-    HelloElemVersionBitmap.marshalM e = .ok ([0, 1, 0, 8, 0, 0, 0, 18], e) ∧
-    HelloElemVersionBitmap.unmarshal HelloElemVersionBitmap.new (Slice.exact ([0, 1, 0, 8, 0, 0, 0, 18] ++ [0, 1, 0, 8, 0, 0, 0, 1]))
-      = .ok (.obj "HelloElemVersionBitmap" [.obj "HelloElemHeader" [.num 1, .num 8], .list [.num 18, .num 65544, .num 1]]) :=
+/-- REMAINING FAILURE (the `PadOK` condition is needed).  A hello element whose Length is not a multiple of 8 (two bitmaps:
+    Length 12) FOLLOWED by another element: `HelloElemVersionBitmap.MarshalBinary` writes 12 bytes without padding, the next
+    element starts right behind it; `Hello.UnmarshalBinary` advances by 16, lands 4 bytes inside the second element, reads
+    its last bitmap 0x00000012 as an element header (type 0, length 18), skips it — and returns, without error, a Hello
+    that has lost the second element.  (OpenFlow 1.3.1+ pads hello elements to 8 bytes; the encoder does not.) -/
+theorem hello_unpadded_element_counterexample :
+    let e1 := V.obj "HelloElemVersionBitmap" [.obj "HelloElemHeader" [.num 1, .num 12], .list [.num 5, .num 6]]
+    let e2 := V.obj "HelloElemVersionBitmap" [.obj "HelloElemHeader" [.num 1, .num 8], .list [.num 18]]
+    let hdr := V.obj "Header" [.num 4, .num 0, .num 28, .num 7]
+    let bs : Bytes := [4, 0, 0, 28, 0, 0, 0, 7,  0, 1, 0, 12, 0, 0, 0, 5, 0, 0, 0, 6,  0, 1, 0, 8, 0, 0, 0, 18]
+    Hello.marshalM (.obj "Hello" [hdr, .list [e1, e2]]) = .ok (bs, .obj "Hello" [hdr, .list [e1, e2]]) ∧
+    parse 29 (Slice.exact bs) = .ok (.obj "Hello" [hdr, .list [e1]]) :=
   ⟨rfl, rfl⟩
 
 end OFV.Props.C05
